@@ -1,5 +1,55 @@
-(** C01 -- lexing is total and lossless in every dialect. Pinned statements only. *)
+(** C01 -- lexing is total and lossless in every dialect. Pinned statements only.
+    [lex_of om os orx tb] is the model of [Lexer::lex(tables, StringOrTemplate::String(s))]
+    (Lexer/Model.v) for the matcher tables [tb] of a dialect, with the pattern engines
+    [om] = Pattern::matches, [os] = Pattern::search, [orx] = the combined anchored regex as oracles.
+    [oracle_ok] are their contracts (bounds, progress, anchoring, greedy trim pattern, last
+    resort takes a byte where lex_match stops); [tables_ok] are the table obligations the
+    translator re-checks on the 13 dumped tables (coq/gen/LexTables.v). *)
 From Sq Require Import Base.Bytes Lexer.Model Lexer.Tables Lexer.Proofs.
-Theorem C01_placeholder : True.
-Proof. exact placeholder. Qed.
-Print Assumptions C01_placeholder.
+
+(** Tokenising succeeds: no panic, no error, and the loops terminate. *)
+Theorem C01_total : forall om os orx tb ku,
+  oracle_ok om os orx tb -> tables_ok ku tb = true ->
+  forall s, exists ts, lex_of om os orx tb s = Some ts.
+Proof. exact lex_total. Qed.
+Print Assumptions C01_total.
+
+(** The token texts concatenated in order reproduce the input byte for byte. *)
+Theorem C01_lossless : forall om os orx tb ku,
+  oracle_ok om os orx tb -> tables_ok ku tb = true ->
+  forall s ts, lex_of om os orx tb s = Some ts -> concat (map t_text ts) = s.
+Proof. exact lex_lossless. Qed.
+Print Assumptions C01_lossless.
+
+(** Token positions tile the input contiguously from 0 to its end; source and templated slices
+    coincide and every token's text is the input at its slice. *)
+Theorem C01_tiling : forall om os orx tb ku,
+  oracle_ok om os orx tb -> tables_ok ku tb = true ->
+  forall s ts, lex_of om os orx tb s = Some ts ->
+  exists toks eof, ts = toks ++ [eof] /\ tiles 0 (len s) (map t_tpl toks) /\ Forall (tok_wf s) toks.
+Proof. exact lex_tiling. Qed.
+Print Assumptions C01_tiling.
+
+(** The stream ends with exactly one end-of-file marker, placed at the end of the input. *)
+Theorem C01_one_eof : forall om os orx tb ku,
+  oracle_ok om os orx tb -> tables_ok ku tb = true ->
+  forall s ts, lex_of om os orx tb s = Some ts ->
+  exists toks eof, ts = toks ++ [eof] /\ is_eof_at (tb_eof tb) (len s) eof /\
+                   Forall (fun t => t_kind t <> tb_eof tb) toks.
+Proof. exact lex_one_eof. Qed.
+Print Assumptions C01_one_eof.
+
+(** The hypotheses are satisfiable by a concrete, non-trivial lexer (and the model then keeps
+    the unlexable bytes: Proofs.ex_lex). *)
+Theorem C01_nonvacuous : oracle_ok ex_match ex_search ex_rx ex_tables /\ tables_ok 7 ex_tables = true.
+Proof. exact (conj ex_oracle_ok ex_tables_ok). Qed.
+Print Assumptions C01_nonvacuous.
+
+(** The main loop as it was before the repair (fix: d3a0a22) drops everything after the first
+    unlexable byte, for oracles and tables satisfying every contract. *)
+Theorem C01_legacy_refuted :
+  exists om os orx tb ku s ts,
+    oracle_ok om os orx tb /\ tables_ok ku tb = true /\
+    lex_legacy_of om os orx tb s = Some ts /\ concat (map t_text ts) <> s.
+Proof. exact lex_legacy_refuted. Qed.
+Print Assumptions C01_legacy_refuted.
